@@ -166,9 +166,7 @@ theorem inv_reply_ret {s : State} (h : Inv s) (ce : Bool) (hpc : s.pc = .sync ce
     obtain ⟨ts, hts⟩ := ht
     simp at hts
     exact absurd hts (hni ts)
-  · apply logOK_append h9
-    intro hm
-    left; simp [snap]; exact hok hm
+  · exact logOK_append h9 _ (by intro hm; left; simp [snap]; exact hok hm)
 
 theorem inv_stopThen {s : State} (h : Inv s) (ce : Bool) (_hpc : s.pc = .sync ce) (r : Reply)
     (mth : Option Nat) (ns : Nat) (k : DrainFor) (hk : toldFor k (some r)) :
@@ -415,7 +413,7 @@ theorem inv_tick {s : State} (h : Inv s) (n : Nat) : Inv { s with now := s.now +
 theorem inv_cancel {s : State} (h : Inv s) :
     Inv { s with cancelled := true, log := s.log ++ [.cancel] } := by
   obtain ⟨h1, h2, h3, h4, h5, h6, h7, h8, h9⟩ := h
-  exact ⟨h1, h2, h3, h4, h5, h6, h7, h8, logOK_append h9 _ trivial⟩
+  exact ⟨h1, h2, h3, h4, h5, h6, h7, h8, logOK_cancel h9⟩
 
 theorem inv_step? {s s' : State} (h : Inv s) (ev : Ev) (hs : step? s ev = some s') : Inv s' := by
   cases ev with
